@@ -3,6 +3,7 @@ package exif2
 import (
 	"sync"
 
+	"github.com/evanoberholster/imagemeta/imagetype"
 	"github.com/rs/zerolog"
 )
 
@@ -55,6 +56,10 @@ func (b *buffer) validTag() bool {
 
 // readTagValue discards until tag.ValueOffset and reads length of tag
 func (ir *ifdReader) readTagValue() (buf []byte, err error) {
+	if !ir.buffer.validTag() {
+		// no pending tag: the slot at the current position holds whatever an earlier decode left in the pooled buffer
+		return nil, imagetype.ErrDataLength
+	}
 	t := ir.buffer.currentTag()
 	if err := ir.discard(int(t.ValueOffset) - int(ir.po)); err != nil {
 		return nil, err
